@@ -199,6 +199,12 @@ fn draw_and_compare(font: &MonoFont, s: &str, text: bool, bg: bool, ul: u8, st: 
     if other != style {
         obs.fail("style-independent-of-builder-order", format!("font set first: underline {:?} strikethrough {:?}; font set last: underline {:?} strikethrough {:?}", style.underline_color, style.strikethrough_color, other.underline_color, other.strikethrough_color));
     }
+    // nor on whether it was derived from another style
+    let derived = char_style_derived::<C>(font, text, bg, ul, st);
+    let rebuilt = char_style_rebuilt::<C>(font, text, bg, ul, st);
+    if derived != style || rebuilt != style {
+        obs.fail("style-independent-of-builder-order", format!("configured from scratch {:?}; derived from a loaded style and reset {:?}; MonoTextStyleBuilder::from(&style).build() {:?}", (style.text_color, style.background_color, style.underline_color, style.strikethrough_color), (derived.text_color, derived.background_color, derived.underline_color, derived.strikethrough_color), (rebuilt.text_color, rebuilt.background_color, rebuilt.underline_color, rebuilt.strikethrough_color)));
+    }
     let t = Text::with_baseline(s, Point::new(pos.0, pos.1), other, Baseline::Top);
     let mut d = RecD::<C>::new();
     t.draw(&mut d).unwrap();
